@@ -47,6 +47,7 @@ theorem invS'_s0 {s : St} {t : Tid} (h : InvS' s) (hp : (s.loc t).pc = .s0) : In
   refine h.locOnly' _ same_glob rfl ?_ ?_
   · exact {
       bg_pc := by simp [PC.client]
+      nowait_ok := by simpa [hp, PC.bgLoop] using ht.nowait_ok
       seq_issued := by simpa [Loc.hasSeq, hp] using ht.seq_issued
       at_c1 := by simp
       at_c2 := by simp
@@ -59,7 +60,7 @@ theorem invS'_s0 {s : St} {t : Tid} (h : InvS' s) (hp : (s.loc t).pc = .s0) : In
       dl_ttl := by
         simp only [hasSeq_iff]
         intro ⟨hb, _⟩ _
-        simp [hb]
+        simp [hb, ht.nowait_false_of_bg hb]
       wdl_le := by simp }
   · simp [Loc.hasSeq, hp]
 
@@ -74,7 +75,24 @@ theorem invS'_s2 {s : St} {t : Tid} (h : InvS' s) (hp : (s.loc t).pc = .s2) : In
   unfold doS2
   split
   · exact h.pcOnly .s3 hp (by decide) same_glob rfl
-  · exact h.pcOnly .s2w hp (by decide) same_glob rfl
+  · split
+    · exact h.pcOnly .s2f hp (by decide) same_glob rfl
+    · exact h.pcOnly .s2w hp (by decide) same_glob rfl
+
+theorem invS'_s2f {s : St} {t : Tid} (h : InvS' s) (hp : (s.loc t).pc = .s2f) :
+    InvS' { setLoc s t (leaveServe (s.loc t)) with condLock := none } :=
+  h.locOnly' _ same_glob rfl ((h.thr t).leaveServe (by rw [hp]; decide)) (leaveServe_hasSeq (by rw [hp]; decide))
+
+theorem invS'_q1 {s : St} {t : Tid} (h : InvS' s) (hp : (s.loc t).pc = .q1) :
+    InvS' (if expiredAt (s.loc t).pdl s.now then setLoc s t { s.loc t with pc := .idle, bg := false, nowait := false }
+      else setLoc s t { s.loc t with pc := .s0 }) := by
+  have ht := h.thr t
+  split
+  · refine h.locOnly' _ same_glob rfl (thrOK_idle ht rfl rfl rfl ?_ rfl rfl ht.result_ok) (by simp [Loc.hasSeq])
+    cases hc : (s.loc t).cb with
+    | none => rfl
+    | some q => have := ht.cb_pc q hc; rw [hp] at this; cases this
+  · exact h.pcOnly .s0 hp (by decide) same_glob rfl
 
 theorem invS'_s2w {s : St} {t : Tid} (h : InvS' s) (hp : (s.loc t).pc = .s2w) : InvS' (doS2w s t (s.loc t)) := by
   unfold doS2w
@@ -82,6 +100,7 @@ theorem invS'_s2w {s : St} {t : Tid} (h : InvS' s) (hp : (s.loc t).pc = .s2w) : 
   refine h.locOnly' _ same_glob rfl ?_ ?_
   · exact {
       bg_pc := by simp [PC.client]
+      nowait_ok := by simpa [hp, PC.bgLoop] using ht.nowait_ok
       seq_issued := by simpa [Loc.hasSeq, hp] using ht.seq_issued
       at_c1 := by simp
       at_c2 := by simp
@@ -129,6 +148,7 @@ theorem invS'_p0_none {s : St} {t : Tid} (p' : PC) (hp' : p' = .x0 ∨ p' = .r0)
   rcases hp' with rfl | rfl <;>
   exact {
     bg_pc := by simp [PC.client]
+    nowait_ok := by simpa [hp, PC.bgLoop] using ht.nowait_ok
     seq_issued := by simpa [Loc.hasSeq, hp] using ht.seq_issued
     at_c1 := by simp
     at_c2 := by simp
@@ -155,6 +175,7 @@ theorem invS'_p0 {s s' : St} {t : Tid} (h : InvS' s) (hp : (s.loc t).pc = .p0)
       rw [heq]; exact List.mem_cons_of_mem _ hg
     · exact {
         bg_pc := by simp [PC.client]
+        nowait_ok := by simpa [hp, PC.bgLoop] using ht.nowait_ok
         seq_issued := by simpa [Loc.hasSeq, hp] using ht.seq_issued
         at_c1 := by simp
         at_c2 := by simp
@@ -213,9 +234,11 @@ theorem invS'_d0 {s : St} {t : Tid} (h : InvS' s) (hp : (s.loc t).pc = .d0) : In
   · exact h.pcOnly .d1 hp (by decide) same_glob rfl
   · split
     · split
-      · exact h.locOnly' _ same_glob rfl (thrOK_idle ht rfl rfl rfl rfl rfl ht.result_ok) (by simp [Loc.hasSeq])
-      · exact h.locOnly' _ same_glob rfl (thrOK_idle ht rfl (by simp_all) rfl rfl rfl (by simp))
-          (by simp [Loc.hasSeq])
+      · exact h.locOnly' _ same_glob rfl (thrOK_idle ht rfl rfl rfl rfl rfl rfl ht.result_ok) (by simp [Loc.hasSeq])
+      · rename_i hb
+        have hb' : (s.loc t).bg = false := by simpa using hb
+        exact h.locOnly' _ same_glob rfl
+          (thrOK_idle ht rfl hb' (ht.nowait_false_of_bg hb') rfl rfl rfl (by simp)) (by simp [Loc.hasSeq])
     · exact invS'_leave h (by rw [hp]; decide)
 
 theorem invS'_d2 {s s' : St} {t : Tid} (h : InvS' s) (hp : (s.loc t).pc = .d2)
@@ -229,10 +252,12 @@ theorem invS'_d2 {s s' : St} {t : Tid} (h : InvS' s) (hp : (s.loc t).pc = .d2)
 
 /-- the call is over (or the serving thread was stopped): nothing is claimed about the thread except its result -/
 theorem ThrOK.toIdle {s : St} {t : Tid} {l : Loc} (h : ThrOK s t l) (hc : l.pc.completing = false)
+    (hn : l.nowait = false)
     (r : Option Outcome)
     (hr : ∀ e o, r = some (.value e o) → ∃ e' v, s.answer l.seq = some (e', v) ∧ e = some e' ∧ o = some v) :
     ThrOK s t { l with pc := .idle, bg := false, result := r } where
   bg_pc := by simp
+  nowait_ok := by simp [hn]
   seq_issued := by simp [Loc.hasSeq]
   at_c1 := by simp
   at_c2 := by simp
@@ -254,6 +279,7 @@ theorem invS'_w9 {s : St} {t : Tid} (h : InvS' s) (hp : (s.loc t).pc = .w9) : In
     refine h.locOnly' _ same_glob rfl ?_ (by simp [Loc.hasSeq, hp])
     exact {
       bg_pc := by simp [hb]
+      nowait_ok := by simp [ht.nowait_false_of_bg hb]
       seq_issued := by simpa [Loc.hasSeq, hp] using ht.seq_issued
       at_c1 := by simp
       at_c2 := by simp
@@ -266,7 +292,7 @@ theorem invS'_w9 {s : St} {t : Tid} (h : InvS' s) (hp : (s.loc t).pc = .w9) : In
       dl_ttl := by simp [PC.inServe]
       wdl_le := by simp }
   · refine h.locOnly' _ same_glob rfl ?_ (by simp [Loc.hasSeq])
-    have := ht.toIdle (by rw [hp]; rfl) (some .timeout) (by simp)
+    have := ht.toIdle (by rw [hp]; rfl) (ht.nowait_false_of_bg hb) (some .timeout) (by simp)
     rw [← hb] at this
     exact this
 
@@ -277,7 +303,7 @@ theorem invS'_w10 {s : St} {t : Tid} (h : InvS' s) (hp : (s.loc t).pc = .w10) : 
   refine h.locOnly' _ same_glob rfl ?_ (by simp [Loc.hasSeq])
   have hr := ht.at_w10 ((hasSeq_iff _).2 ⟨hb, by rw [hp]; decide⟩) hp
   obtain ⟨_, ho, he⟩ := h.glob.ready_compl _ hr
-  have := ht.toIdle (by rw [hp]; rfl) (some (.value (s.cells (s.loc t).seq).isExc (s.cells (s.loc t).seq).obj)) (by
+  have := ht.toIdle (by rw [hp]; rfl) (ht.nowait_false_of_bg hb) (some (.value (s.cells (s.loc t).seq).isExc (s.cells (s.loc t).seq).obj)) (by
     intro e o heq
     simp only [Option.some.injEq, Outcome.value.injEq] at heq
     obtain ⟨rfl, rfl⟩ := heq
@@ -300,12 +326,32 @@ theorem invS'_bS {s : St} {t : Tid} (h : InvS' s) (hp : (s.loc t).pc = .bS) :
     InvS' (setLoc s t { s.loc t with pc := .b0 }) :=
   h.pcOnly .b0 hp (by decide) same_glob rfl
 
-theorem invS'_bg {s : St} {t : Tid} (h : InvS' s) (hp : (s.loc t).pc = .idle) :
+theorem invS'_bg {s : St} {t : Tid} (h : InvS' s) (hp : (s.loc t).pc = .idle) (hb : (s.loc t).bg = false) :
     InvS' (setLoc s t { s.loc t with pc := .b0, bg := true }) := by
   have ht := h.thr t
   refine h.locOnly' _ same_glob rfl ?_ (by simp [Loc.hasSeq])
   exact {
     bg_pc := by simp [PC.client]
+    nowait_ok := by simp [ht.nowait_false_of_bg hb]
+    seq_issued := by simp [Loc.hasSeq]
+    at_c1 := by simp
+    at_c2 := by simp
+    cb_pc := by simpa [hp, PC.completing] using ht.cb_pc
+    completing := by simp [PC.completing]
+    data_answer := ht.data_answer
+    at_w10 := by simp
+    result_ok := ht.result_ok
+    self_dispatch := by simp [Loc.hasSeq]
+    dl_ttl := by simp [Loc.hasSeq]
+    wdl_le := by simp }
+
+theorem invS'_pollAll {s : St} {t : Tid} (d : Nat) (h : InvS' s) (hp : (s.loc t).pc = .idle) :
+    InvS' (setLoc s t { s.loc t with pc := .s0, bg := true, nowait := true, pdl := some (s.now + d) }) := by
+  have ht := h.thr t
+  refine h.locOnly' _ same_glob rfl ?_ (by simp [Loc.hasSeq])
+  exact {
+    bg_pc := by simp [PC.client]
+    nowait_ok := by simp [PC.bgLoop]
     seq_issued := by simp [Loc.hasSeq]
     at_c1 := by simp
     at_c2 := by simp
@@ -320,7 +366,7 @@ theorem invS'_bg {s : St} {t : Tid} (h : InvS' s) (hp : (s.loc t).pc = .idle) :
 
 theorem invS'_stop {s : St} {t : Tid} (h : InvS' s) (hp : (s.loc t).pc = .b0) :
     InvS' (setLoc s t { s.loc t with pc := .idle, bg := false }) :=
-  h.locOnly' _ same_glob rfl ((h.thr t).toIdle (by rw [hp]; rfl) _ (h.thr t).result_ok) (by simp [Loc.hasSeq])
+  h.locOnly' _ same_glob rfl ((h.thr t).toIdle (by rw [hp]; rfl) ((h.thr t).nowait_false_of_bgLoop (by rw [hp]; rfl)) _ (h.thr t).result_ok) (by simp [Loc.hasSeq])
 
 /-! ### steps that change the shared state -/
 
@@ -359,6 +405,7 @@ theorem invS'_call {s : St} {t : Tid} (tmo : Option Nat) (h : InvS' s) (hp : (s.
       rw [setLoc_loc_self]
       exact {
         bg_pc := by simp [hb]
+        nowait_ok := by simp [ht.nowait_false_of_bg hb]
         seq_issued := fun _ => List.mem_cons_self
         at_c1 := fun _ _ => hfr
         at_c2 := by simp
@@ -415,6 +462,7 @@ theorem invS'_c1 {s : St} {t : Tid} (h : InvS' s) (hp : (s.loc t).pc = .c1) : In
     · simp [f1]
   · exact {
       bg_pc := by simp [hb]
+      nowait_ok := by simp [ht.nowait_false_of_bg hb]
       seq_issued := fun _ => ht.seq_issued hseq
       at_c1 := by simp
       at_c2 := fun _ _ => ⟨f2, f3⟩
@@ -508,7 +556,7 @@ theorem invS'_c2 {s : St} {t : Tid} (h : InvS' s) (hp : (s.loc t).pc = .c2) : In
       · exact .inl (setCell_cells_ne _ _ e)
     refine h.step' t _ rfl (by simp [Loc.hasSeq]) ?_ ?_ ?_
     · exact h.glob.clearReg rfl rfl rfl rfl rfl rfl (Nat.le_refl _) hcells
-    · exact thrOK_idle (ht.clearReg h.glob rfl rfl rfl rfl rfl rfl hcells) rfl hb
+    · exact thrOK_idle (ht.clearReg h.glob rfl rfl rfl rfl rfl rfl hcells) rfl hb (ht.nowait_false_of_bg hb)
         (by
           cases hc : (s.loc t).cb with
           | none => rfl
@@ -595,6 +643,7 @@ theorem invS'_d1 {s s' : St} {t : Tid} (h : InvS' s) (hp : (s.loc t).pc = .d1)
           rw [g3] at this; cases this
       · exact {
           bg_pc := by simp [PC.client]
+          nowait_ok := by simpa [hp, PC.bgLoop] using ht.nowait_ok
           seq_issued := by simpa [Loc.hasSeq, hp] using ht.seq_issued
           at_c1 := by simp
           at_c2 := by simp
@@ -668,6 +717,7 @@ theorem invS'_d3 {s s' : St} {t : Tid} (h : InvS' s) (hp : (s.loc t).pc = .d3)
         rw [c7] at this; cases this
     · exact {
         bg_pc := by simp [PC.client]
+        nowait_ok := by simpa [hp, PC.bgLoop] using ht.nowait_ok
         seq_issued := by simpa [Loc.hasSeq, hp] using ht.seq_issued
         at_c1 := by simp
         at_c2 := by simp
@@ -726,6 +776,7 @@ theorem invS'_d4 {s s' : St} {t : Tid} (h : InvS' s) (hp : (s.loc t).pc = .d4)
         rw [c7] at this; cases this
     · exact {
         bg_pc := by simp [PC.client]
+        nowait_ok := by simpa [hp, PC.bgLoop] using ht.nowait_ok
         seq_issued := by simpa [Loc.hasSeq, hp] using ht.seq_issued
         at_c1 := by simp
         at_c2 := by simp
@@ -794,7 +845,7 @@ theorem invS'_d5 {s s' : St} {t : Tid} (h : InvS' s) (hp : (s.loc t).pc = .d5)
           rw [c9]; rfl
         · show (s.cells q).isExc.isSome = true
           rw [c8]; rfl
-    · exact thrOK_leaveServe (fun hb => ht.seq_issued ((hasSeq_iff _).2 ⟨hb, by rw [hp]; decide⟩)) ht.result_ok
+    · exact thrOK_leaveServe (fun hn => (ht.nowait_ok hn).1) (fun hb => ht.seq_issued ((hasSeq_iff _).2 ⟨hb, by rw [hp]; decide⟩)) ht.result_ok
     · intro u hu
       refine (h.thr u).other_completing hu c4 rfl rfl rfl rfl rfl (fun r hr => ?_) cne ?_ ?_
       · show (setCell _ _ _).cells r = _
@@ -868,6 +919,7 @@ theorem invS'_init : InvS' init where
     ready_compl := by simp [init] }
   thr := fun t => {
     bg_pc := by simp [init]
+    nowait_ok := by simp [init]
     seq_issued := by simp [init, Loc.hasSeq]
     at_c1 := by simp [init]
     at_c2 := by simp [init]
@@ -893,6 +945,8 @@ theorem invS'_run {s s' : St} (t : Tid) (h : InvS' s) (hs : stepRun s t = some s
   case s1 => exact invS'_s1 h hpc hs
   case s2 => exact hs ▸ invS'_s2 h hpc
   case s2w => exact hs ▸ invS'_s2w h hpc
+  case s2f => exact hs ▸ invS'_s2f h hpc
+  case q1 => exact hs ▸ invS'_q1 h hpc
   case zz => exact invS'_zz h hpc hs
   case s2r => exact invS'_s2r h hpc hs
   case s3 => exact hs ▸ invS'_s3 h hpc
@@ -923,7 +977,12 @@ theorem invS'_step {s s' : St} (a : Actor) (h : InvS' s) (hs : step s a = some s
   | bg t =>
     simp only [step] at hs
     split at hs
-    · rename_i hc; cases hs; exact invS'_bg h hc.1
+    · rename_i hc; cases hs; exact invS'_bg h hc.1 hc.2
+    · cases hs
+  | pollAll t d =>
+    simp only [step] at hs
+    split at hs
+    · rename_i hc; cases hs; exact invS'_pollAll d h hc.1
     · cases hs
   | stop t =>
     simp only [step] at hs
